@@ -440,6 +440,10 @@ var c20Seq int
 type c20Env struct {
 	Scratch  string
 	probeRef map[string]*c20ProbeOut
+	// Sentinel, when set (strace child), brackets the transaction with two recognisable system
+	// calls; the harness then makes no system call of its own between them.
+	Sentinel func(name string)
+	LastDirs c20Dirs
 }
 
 func (e *c20Env) nextDirs() c20Dirs {
@@ -474,6 +478,10 @@ func c20Exec(e *c20Env, c *c20Case) *c20Run {
 		verifapi.ArmFault(c.Site, c.Occ)
 	}
 	restoreFsize := c20SetFsize(&s.Conf)
+	e.LastDirs = d
+	if e.Sentinel != nil {
+		e.Sentinel("begin")
+	}
 	tx := waf.NewTransactionWithID("c20tx")
 	ncalls := len(s.Calls)
 	if c.Mode == "abandon" && c.Stop < ncalls {
@@ -510,13 +518,18 @@ func c20Exec(e *c20Env, c *c20Case) *c20Run {
 		r.Intr = c20Intr(tx.Interruption())
 	})
 	r.KeepApply = s.Conf.Keep == "On" || (s.Conf.Keep == "RelevantOnly" && r.KeepApply)
-	r.Created = c20List(d.Tmp, d.Upl)
+	if e.Sentinel == nil {
+		r.Created = c20List(d.Tmp, d.Upl)
+	}
 	if pi := fw.Guard(func() {
 		if err := tx.Close(); err != nil {
 			r.CloseErr = err.Error()
 		}
 	}); pi != nil && r.Panic == nil {
 		r.Panic, r.PanicAt = pi, "close"
+	}
+	if e.Sentinel != nil {
+		e.Sentinel("end")
 	}
 	restoreFsize()
 	r.Fired = verifapi.FaultsFired()
